@@ -286,8 +286,8 @@ class JModel:
                 return t
         return "S"
 
-    def etype(self, node, tenv: Dict[str, str]) -> str:
-        et = lambda n: self.etype(n, tenv)  # noqa
+    def etype(self, node, tenv: Dict[str, str], senv: Optional[Dict[str, str]] = None) -> str:
+        et = lambda n: self.etype(n, tenv, senv)  # noqa
         if isinstance(node, N.Name):
             if node.name in tenv:
                 return tenv[node.name]
@@ -349,6 +349,15 @@ class JModel:
         if isinstance(node, N.CondExpr):
             a = et(node.expr1)
             b = et(node.expr2) if node.expr2 is not None else "S"
+            # `x if x is string else ...`: in the first branch x is a plain string, whatever its declared kind
+            # (the test may have been hoisted into a `set` variable: its symbolic value is compared)
+            try:
+                tsym, xsym = sym(node.test, senv or {}), sym(node.expr1, senv or {})
+            except AnalysisError:
+                tsym, xsym = "", "?"
+            want = f"{xsym} is string"
+            if tsym == want or (tsym.startswith("(") and tsym.endswith(")") and tsym[1:-1] == want):
+                a = "S"
             return self.join_type(a, b)
         if isinstance(node, (N.Add, N.Concat)):
             parts = [node.left, node.right] if isinstance(node, N.Add) else node.nodes
@@ -511,7 +520,7 @@ class _Walker:
             self.walk(n, tname, env, conds, loops, macros, st)
 
     def etype(self, node, env: Env) -> str:
-        return self.jm.etype(node, env.t)
+        return self.jm.etype(node, env.t, env.s)
 
     @staticmethod
     def _merge(env: Env, test: str, e1: Env, e2: Env):
@@ -707,3 +716,85 @@ class _Walker:
             for r in self.outs[before:]:
                 r.filters = r.filters + outer_filters
         self.depth -= 1
+
+
+
+# --------------------------------------------------------------------------- string structure of a symbolic value
+def string_alternatives(symtext: str, limit: int = 16, decide=None):
+    """The string a symbolic template value denotes, as alternatives of part lists: [("lit", text) | ("expr", text), ...].
+    Understands concatenation (`~`, `+`), `'...{}...'.format(a, b)`, `[a, b]|join('x')`, conditional expressions and the
+    `e` / `string` filters - however the template spells the composition.  `decide(test text)` may settle the test of a
+    conditional expression (True / False / None = unknown).  Returns None when the text is not understood."""
+    import ast as _ast
+    t = symtext.replace("[*]", "[STAR]")
+    t = re.sub(r" is (\w+)", r".IS_\1", t)
+    t = t.replace(" ~ ", " + ")
+    t = re.sub(r"\|(\w+)\(", r".FILTER_\1(", t)
+    t = re.sub(r"\|(\w+)", r".FILTER_\1()", t)
+    try:
+        tree = _ast.parse(t, mode="eval").body
+    except SyntaxError:
+        return None
+
+    def txt(n) -> str:
+        u = _ast.unparse(n).replace("[STAR]", "[*]")
+        u = re.sub(r"\.IS_(\w+)", r" is \1", u)
+        u = re.sub(r"\.FILTER_(\w+)\(\)", r"|\1", u)
+        u = re.sub(r"\.FILTER_(\w+)\(", r"|\1(", u)
+        return u
+
+    def cat(a, b):
+        return [x + y for x in a for y in b][:limit]
+
+    def ev(n):
+        if isinstance(n, _ast.Constant):
+            return [[("lit", str(n.value))]]
+        if isinstance(n, _ast.BinOp) and isinstance(n.op, _ast.Add):
+            return cat(ev(n.left), ev(n.right))
+        if isinstance(n, _ast.IfExp):
+            if isinstance(n.test, _ast.Constant):          # a macro argument that is a constant: only one branch is live
+                return ev(n.body) if n.test.value else ev(n.orelse)
+            if decide is not None:                         # the caller knows the value of some tests (e.g. `page.obj != 'x'`)
+                d = decide(txt(n.test))
+                if d is not None:
+                    return ev(n.body) if d else ev(n.orelse)
+            return (ev(n.body) + ev(n.orelse))[:limit]
+        if isinstance(n, _ast.Call) and isinstance(n.func, _ast.Attribute):
+            if n.func.attr == "format" and isinstance(n.func.value, _ast.Constant) and isinstance(n.func.value.value, str):
+                pieces = re.split(r"(\{\d*\})", n.func.value.value)
+                out = [[]]
+                k = 0
+                for pc in pieces:
+                    m = re.fullmatch(r"\{(\d*)\}", pc)
+                    if m:
+                        i = int(m.group(1)) if m.group(1) else k
+                        k += 1
+                        if i >= len(n.args):
+                            return [[("expr", txt(n))]]
+                        out = cat(out, ev(n.args[i]))
+                    elif pc:
+                        out = cat(out, [[("lit", pc)]])
+                return out
+            if n.func.attr == "FILTER_join" and isinstance(n.func.value, (_ast.List, _ast.Tuple)):
+                sep = n.args[0].value if n.args and isinstance(n.args[0], _ast.Constant) else ""
+                out = [[]]
+                for i, el in enumerate(n.func.value.elts):
+                    if i:
+                        out = cat(out, [[("lit", str(sep))]])
+                    out = cat(out, ev(el))
+                return out
+            if n.func.attr in ("FILTER_e", "FILTER_escape", "FILTER_string", "FILTER_safe") and not n.args:
+                return ev(n.func.value)
+        return [[("expr", txt(n))]]
+    alts = ev(tree)
+    # merge adjacent literals
+    out = []
+    for a in alts:
+        m = []
+        for k, v in a:
+            if m and k == "lit" and m[-1][0] == "lit":
+                m[-1] = ("lit", m[-1][1] + v)
+            else:
+                m.append((k, v))
+        out.append(m)
+    return out
